@@ -547,6 +547,82 @@ def _failed_io_first(concepts, ctx, rng, work, objects, properties):
     COL.count('contexts_with_failed_io_before_the_round_trips')
 
 
+def _definition_history(concepts, d, objects, properties, bools, rng):
+    """The same writers behind a table that is being edited: export, edit (moves, renames, cells, added and
+    removed names), export again - with no other call in between.  What the text shows is compared with an
+    ordered-table model kept here (the ToString monitor on Definition reads the definition's own accessors,
+    which is exactly what a stale export would agree with), and Context(*definition) made at that point
+    must write the same table."""
+    from ..tablemodel import TableModel
+    model = TableModel(objects, properties, bools)
+    fresh = iter(f'n{k}' for k in range(100))
+    taken = set(objects) | set(properties)
+
+    def newname():
+        for x in fresh:
+            if x not in taken:
+                taken.add(x)
+                return x
+
+    def edit():
+        k = rng.randrange(9)
+        o = rng.choice(model.objects) if model.objects else None
+        p_ = rng.choice(model.properties) if model.properties else None
+        if k in (0, 1) and o is not None:
+            return 'move_object', (o, rng.randrange(len(model.objects)))
+        if k in (2, 3) and p_ is not None:
+            return 'move_property', (p_, rng.randrange(len(model.properties)))
+        if k == 4 and o is not None and p_ is not None:
+            return '__setitem__', ((o, p_), rng.random() < .5)
+        if k == 5 and o is not None:
+            return 'rename_object', (o, newname())
+        if k == 6 and p_ is not None:
+            return 'rename_property', (p_, newname())
+        if k == 7:
+            return 'add_object', (newname(), rng.sample(model.properties, rng.randint(0, len(model.properties))))
+        if k == 8 and len(model.objects) > 1:
+            return 'remove_object', (o,)
+        return None
+
+    def exports(step):
+        triple = model.triple()
+        if not triple[0] or not triple[1]:
+            return
+        for fmt, kw in rng.sample([('table', {}), ('cxt', {}), ('csv', {}), ('csv', {'bools_as_int': True}),
+                                   ('wiki-table', {})], 3):
+            if not _representable(fmt, list(triple[0]), list(triple[1])):
+                continue
+            text = call(d.tostring, fmt, **kw)
+            if text is RAISED or not isinstance(text, str):
+                continue
+            COL.count('judged_def_tostring_in_an_edit_history')
+            _judge_written('def_tostring_history', fmt, text, (list(triple[0]), list(triple[1]), [list(r) for r in triple[2]]), kw)
+        if step and rng.random() < .5:
+            c2 = call(concepts.Context, *d)
+            if c2 is not RAISED:
+                COL.count('judged_context_made_in_an_edit_history')
+                got = _triple_of_ctx(c2)
+                if got != _norm(triple):
+                    COL.violation('driver', 'definition-history:Context(*definition)-is-another-table', _norm(triple), got)
+
+    if rng.random() < .5:
+        exports(0)          # read first: whatever an export remembers is there before the edits
+    for step in range(1, 5):
+        for _ in range(rng.randint(1, 2)):
+            e = edit()
+            if e is None:
+                continue
+            op, args = e
+            if model.apply(op, *args)[0] != 'ok':
+                continue
+            fn = getattr(d, op, None)
+            if fn is None or call(fn, *args) is RAISED:
+                COL.count('definition_history_edit_raised_not_continued')
+                return
+            COL.count('definition_history_edits')
+        exports(step)
+
+
 def run_twins(concepts, case, spec):
     """Two different texts of the same format, equal in length and CRC-32, parsed one after the other
     (and the first one again): each must give its own context.  Every load is judged by the monitors
@@ -728,6 +804,7 @@ def run_case(concepts, case, spec):
     if d is not RAISED:
         for fmt in ('table', 'cxt', 'csv', 'wiki-table'):
             call(d.tostring, fmt)
+        _definition_history(concepts, d, objects, properties, bools, rng)
     # (d) concept .dat files -------------------------------------------------------
     cl = call(concepts.algorithms.get_concepts, ctx)
     if cl is not RAISED:
